@@ -31,7 +31,8 @@ impl GameTime {
         // return a time slice.
         if base_time <= 0.0 {
             if increment > 0.0 {
-                (increment * MAX_USAGE).round() as u128
+                // never plan to use more than what is left on the clock
+                (increment * MAX_USAGE).min(clock.max(0.0)).round() as u128
             } else {
                 NO_TIME
             }
